@@ -11,7 +11,7 @@ from core import Case
 from props import _sg
 
 PID = "C13"
-LEAN_MODULES = ["KrroodVerif.Props.C13", "KrroodVerif.Props.C13Table"]
+LEAN_MODULES = ["KrroodVerif.Props.C13", "KrroodVerif.Props.C13Table", "KrroodVerif.Props.C13Step"]
 THEOREMS = [
     "KrroodVerif.SG.C13_inv_init",
     "KrroodVerif.SG.C13_inv_step",
@@ -35,6 +35,12 @@ THEOREMS = [
     "KrroodVerif.SG.C13_census_of_table_eq",
     "KrroodVerif.SG.C13_census_table",
     "KrroodVerif.SG.C13_run_by_table",
+    # the interleaving of lazily consumed evaluations with the history (Model/SymbolGraphStep.lean, Props/C13Step.lean)
+    "KrroodVerif.SG.begin_expected",
+    "KrroodVerif.SG.C13_stepwise_census",
+    "KrroodVerif.SG.C13_stepwise_partial",
+    "KrroodVerif.SG.C13_stepwise_snapshot",
+    "KrroodVerif.SG.C13_cex_stepwise",
 ]
 TRANSLATED = ["KrroodVerif.SG.Translated.C13_table_translated_eq_model",
               "KrroodVerif.SG.Translated.C13_translated_census"]
@@ -78,7 +84,9 @@ def extra_obligations():
     return res
 
 MODEL_FUNCTION = ("SG.step / SG.addNode / SG.removeNode / SG.sweep / SG.instancesOf / SG.evalQuery "
-                  "(Model/SymbolGraph.lean), run under the LIFO allocator by Drive/SG.lean")
+                  "(Model/SymbolGraph.lean), SG.advance / SG.SRun.between / SG.SRun.start / SG.SRun.next "
+                  "(Model/SymbolGraphStep.lean), run under the LIFO allocator by Drive/SG.lean; SG.table and its interpreters "
+                  "(Model/SymbolGraphTable.lean) regenerated from the source by harness/translate/sg_translate.py")
 TRUSTED = [
     "Lean 4.33 kernel; axioms of each theorem listed under coverage.theorems",
     "hand-written model Model/SymbolGraph.lean of symbol_graph.py, Symbol.__new__, let(T, None), evaluate() -> "
